@@ -31,6 +31,7 @@ ALPHA = {
     "bool": [False, True],
     "enum": [{"enum": "RED"}, {"enum": "RE"}, {"enum": "GREEN"}],
     "opt:int": [None, 0, 3],
+    "optd:int": [3, None, 0],
     "path": [{"path": "/x"}, {"path": "/y"}],
     "list:int": [[], [1], [1, 2], [2, 1], [0]],
     "list:str": [[], ["x", "y"], ["xy"], ["x"], ["y", "x"], ["", "xy"], ["xy", ""]],
@@ -45,6 +46,8 @@ ALPHA = {
 #: alternatives for the class of a node (sub-classes usable in the same positions)
 CLASS_ALTS = {"leaf": ["leafx"]}
 MAX_LIST = 2
+#: shapes of nested containers of configurations: groups of node tags (equal tags = the same node shared)
+NEST_SHAPES = [[["a"]], [["a"], ["b"]], [["a", "b"]], [["a"], []], [["a"], ["a"]], [["a", "b"], ["c"]]]
 DICT_KEYS = ["a", "b"]
 
 
@@ -218,6 +221,34 @@ def successors(G, N, allow):
                     out.append(H)
                 continue
             if "struct" not in allow:
+                continue
+            if kind.startswith("nest:"):
+                # nested containers of configurations: a few shapes filled with fresh default nodes (S = the same node twice)
+                if cur not in (None, [], {"dict": {}}) or name in n["args"]:
+                    continue
+                _, outer, inner, base = kind.split(":")
+                for shape in NEST_SHAPES:
+                    need = len({x for grp in shape for x in grp})
+                    if need > room:
+                        continue
+                    H = clone()
+                    made = {}
+
+                    def node(tag, H=H, made=made, base=base):
+                        if tag not in made:
+                            made[tag] = add_default_node(H, base)
+                        return {"ref": made[tag]}
+                    groups = [[node(t) for t in grp] for grp in shape]
+                    if inner == "list":
+                        inners = groups
+                    else:
+                        inners = [{"dict": {DICT_KEYS[i]: v for i, v in enumerate(grp)}} for grp in groups]
+                    if outer == "list":
+                        val = inners
+                    else:
+                        val = {"dict": {DICT_KEYS[i]: v for i, v in enumerate(inners)}}
+                    H["nodes"][l]["args"][name] = val
+                    out.append(H)
                 continue
             # ---- configuration-valued parameters
             base = kind.split("cfg:")[1]
